@@ -256,6 +256,13 @@ func ruleE5(p *Program, c *Check, min int) {
 	}
 	ruleGlobals(p, c)
 	ruleTypes(p, c)
+	pkgs := map[string]bool{}
+	for k := range anchored {
+		if i := strings.Index(k, "."); i > 0 {
+			pkgs[k[:i]] = true
+		}
+	}
+	ruleConsts(p, c, verifRoot, pkgs)
 }
 
 func itoa(i int) string { return strconv.Itoa(i) }
